@@ -161,23 +161,45 @@ func (p *HTTPProxy) ServeHTTP(w http.ResponseWriter, r *http.Request) {
 	// TODO(fs): have found the target based on the prefix but there may be other
 	// TODO(fs): matchers which may have different rules. I'll keep this for
 	// TODO(fs): a defensive approach.
+	// rawPath is the path as the client encoded it. It is rewritten together
+	// with the path so that the upstream sees the client's percent-encoding
+	// (e.g. %2F) instead of a re-encoded version of the decoded path. It is
+	// only a hint: url.URL falls back to the default encoding when it does
+	// not match the path.
+	rawPath := r.URL.EscapedPath()
+
 	if t.StripPath != "" && strings.HasPrefix(r.URL.Path, t.StripPath) {
 		targetURL.Path = targetURL.Path[len(t.StripPath):]
+		if strings.HasPrefix(rawPath, t.StripPath) {
+			rawPath = rawPath[len(t.StripPath):]
+		} else {
+			rawPath = ""
+		}
 		// ensure absolute path after stripping to maintain compliance with
 		// section 5.3 of RFC7230 (https://tools.ietf.org/html/rfc7230#section-5.3)
 		if !strings.HasPrefix(targetURL.Path, "/") {
 			targetURL.Path = "/" + targetURL.Path
+			if rawPath != "" || targetURL.Path == "/" {
+				rawPath = "/" + rawPath
+			}
 		}
 	}
 
 	if t.PrependPath != "" {
 		targetURL.Path = t.PrependPath + targetURL.Path
+		if rawPath != "" {
+			rawPath = t.PrependPath + rawPath
+		}
 		// ensure absolute path after stripping to maintain compliance with
 		// section 5.3 of RFC7230 (https://tools.ietf.org/html/rfc7230#section-5.3)
 		if !strings.HasPrefix(targetURL.Path, "/") {
 			targetURL.Path = "/" + targetURL.Path
+			if rawPath != "" {
+				rawPath = "/" + rawPath
+			}
 		}
 	}
+	targetURL.RawPath = rawPath
 
 	if err := addHeaders(r, p.Config, t.StripPath); err != nil {
 		http.Error(w, "cannot parse "+r.RemoteAddr, http.StatusInternalServerError)
